@@ -296,7 +296,7 @@ fn pic_digest(p: Option<&DecodedPicture>, full: bool) -> String {
 }
 
 /// `P <opts> <op;op;...>` with ops `d:<hex>` (append bytes, decode), `a:<hex>` (append only), `n` (decode), `c` (cleanup_buffers).
-/// After every op: `<ok|err:Name|PANIC> last=<digest> ref=<digest> rem=<bits>`.
+/// After every op: `<ok|err:Name|PANIC> last=<digest> ref=<digest> rem=<bits> run=<carried-over option bits>`.
 pub fn history(a: &[&str], full: bool) -> String {
     let o = opts_of(a[0].parse().expect("opts"));
     let src = Growable(Rc::new(RefCell::new(VecDeque::new())));
@@ -335,11 +335,12 @@ pub fn history(a: &[&str], full: bool) -> String {
         }
         let rem = remaining_bits_quiet(&reader, &src);
         out.push(format!(
-            "{} last={} ref={} rem={}",
+            "{} last={} ref={} rem={} run={}",
             res,
             pic_digest(st.get_last_picture(), full),
             pic_digest(st.get_reference_picture(), full),
-            rem
+            rem,
+            st.verif_running_options()
         ));
     }
     format!("{} {}", if full { "PX" } else { "P" }, out.join(" | "))
@@ -469,11 +470,12 @@ pub fn schedule(a: &[&str]) -> String {
                     }
                     let rem = remaining_bits_quiet(rd, src);
                     out.push(format!(
-                        "{} last={} ref={} rem={}",
+                        "{} last={} ref={} rem={} run={}",
                         res,
                         pic_digest(st.get_last_picture(), false),
                         pic_digest(st.get_reference_picture(), false),
-                        rem
+                        rem,
+                        st.verif_running_options()
                     ));
                 }
             }
